@@ -222,12 +222,16 @@ def run_scenario(base, images, runs):
 
         sink = io.StringIO()
         ok = True
+        unexpected = None
         os.listdir = fake_listdir
         try:
             with contextlib.redirect_stdout(sink):
                 mgr.publish()
         except Boom:
             ok = False
+        except Exception as e:  # not the injected fault: publish itself failed
+            ok = False
+            unexpected = repr(e)[:200]
         finally:
             os.listdir = real_listdir
         # read back
@@ -246,7 +250,8 @@ def run_scenario(base, images, runs):
                 extras += [x for x in real_listdir(d) if x not in RNAMES or RNAMES[x] not in names]
             in_a = os.path.isdir(os.path.join(work, "approved", uid_str(u)))
             in_p = os.path.isdir(os.path.join(work, "published", uid_str(u)))
-            assert in_a != in_p, (u, in_a, in_p)
+            if in_a == in_p:
+                unexpected = (unexpected or "") + f" image {u}: in approved={in_a}, in published={in_p}"
             pub[u] = in_p
         # refresh
         cand = os.path.join(work, "candidates")
@@ -254,7 +259,8 @@ def run_scenario(base, images, runs):
         with contextlib.redirect_stdout(sink):
             pcli.refresh_impl(argparse.Namespace(workdir=work))
         skip = {u: not os.path.exists(os.path.join(cand, uid_str(u))) for u in images}
-        out.append(dict(log=[(int(a[3:]), RNAMES[b]) for a, b in log], ok=ok, store=st, pub=pub, skip=skip, extras=extras))
+        out.append(dict(log=[(int(a[3:]), RNAMES.get(b, 99)) for a, b in log], ok=ok, store=st, pub=pub, skip=skip,
+                        extras=extras, unexpected=unexpected))
     return out
 
 
@@ -264,6 +270,8 @@ def property_fails(images, runs, obs):
     """Reasons why the observed behaviour contradicts C18's statement."""
     why = []
     for i, (r, o) in enumerate(zip(runs, obs)):
+        if o.get("unexpected"):
+            why.append(f"run {i + 1}: publish failed by itself: {o['unexpected']}")
         # index.wtml strictly after every other file of that image; nothing twice
         per = {}
         for u, n in o["log"]:
